@@ -14,6 +14,32 @@ from ._blockvalidate import CORE, BlockValidate
 FIELDS = ("rebroadcast_hash", "total_rebroadcast_slips")
 
 
+def _returns_atr_compare(prog, cb):
+    """the closure's result is the comparison slip_type == ATR itself (`|s| s.slip_type == SlipType::ATR`, `matches!(..)`)"""
+    ch = Chaser(cb)
+    for blk in cb.blocks:
+        for st in blk["s"]:
+            if st[0] == "=" and st[1] == [0, []]:
+                e = ch.rvalue(st[2], 0)
+                from ..expr import walk
+                for x in walk(e):
+                    if x[0] == "call" and x[1] in ("std::cmp::PartialEq::eq",) and any(has_field(a, None, "slip_type") for a in x[2]):
+                        v = [gate.promoted_value(prog, cb, a) for a in x[2]]
+                        if "ATR" in v:
+                            return True
+                    if x[0] == "bin" and x[1] == "Eq" and any(y[0] == "discr" and has_field(y, None, "slip_type") for y in (x[2], x[3])):
+                        return True
+        t = blk["t"]
+        if t["k"] == "call" and t["dest"] == [0, []]:
+            e = ch.origin(["cp", [0, []]]) if False else None
+    for bb, t in cb.calls():
+        if t["dest"] == [0, []] and (t.get("callee") or "").endswith("PartialEq::eq") or (t["dest"] == [0, []] and "PartialEq" in (t.get("res") or "")):
+            args = [ch.origin(a) for a in t["args"]]
+            if any(has_field(a, None, "slip_type") for a in args) and "ATR" in [gate.promoted_value(prog, cb, a) for a in args]:
+                return True
+    return False
+
+
 def run(prog, tier, extra=None):
     res = Result("C13", "other")
     R1 = res.rule("C13.compare", "accept paths of Block::validate pass cv.F == self.F for the rebroadcast commitment", floor=2)
@@ -85,6 +111,59 @@ def run(prog, tier, extra=None):
                                 "covered by the rebroadcast commitment that Block::validate compares", g.loc(skipped[0])))
             else:
                 res.sample({"rule": R2, "field": f, "verdict": "every ATR-typed transaction is folded into the hash"})
+    # R2b: both sides count the same thing. generate_consensus_values adds one to cv.total_rebroadcast_slips per rebroadcast
+    # transaction it creates, and each of those carries exactly one ATR-typed output (an NFT group travels as [Bound, ATR, Bound]);
+    # Block::generate therefore has to count the ATR-typed outputs of the ATR transactions: `+ 1` behind a test slip_type == ATR, or
+    # the count() of a filter whose closure makes that test. Counting anything else (all outputs, transactions) makes producer and
+    # validator disagree as soon as an NFT group is rebroadcast
+    from ..expr import strip, walk
+    slip_atr, _ = gate.enum_compare_edges(prog, g, chg, "slip::SlipType", "slip_type", {"ATR"})
+    from ..paths import Explorer
+
+    def reachable_without_slip_test(target):
+        # path-sensitive: `matches!(slip.slip_type, SlipType::ATR)` is lowered to a bool temporary that is switched on afterwards
+        found = Explorer(g).explore(0, deleted_edges=slip_atr, accept=lambda b_, env: "hit" if b_ == target else None)
+        return bool(found)
+    for bb, blk in enumerate(g.blocks):
+        for st in blk["s"]:
+            if st[0] != "=" or place_has_field(st[1], "block::Block", "total_rebroadcast_slips") is None:
+                continue
+            rv = st[2]
+            if (rv[0] == "use" and rv[1][0] == "k") or (rv[0] == "repeat" and rv[1][0] == "k"):
+                continue
+            res.instance(R2)
+            e = strip(chg.rvalue(rv, 0))
+            if e[0] == "field" and e[1][0] == "bin":
+                e = e[1]
+            addend = None
+            if e[0] == "bin" and e[1].startswith("Add"):
+                for x, y in ((e[2], e[3]), (e[3], e[2])):
+                    if has_field(x, "block::Block", "total_rebroadcast_slips"):
+                        addend = y
+            ok = False
+            why = "is not of the form total_rebroadcast_slips + n"
+            if addend is not None:
+                a = strip(addend)
+                if a[0] == "const" and a[1] == 1:
+                    ok = bool(slip_atr) and not reachable_without_slip_test(bb)
+                    why = "adds 1 on a path that does not pass a test slip_type == ATR"
+                else:
+                    why = "adds a value that is not the number of ATR-typed outputs"
+                    for x in walk(addend):
+                        if x[0] in ("call", "via") and x[1].rsplit("::", 1)[-1] in ("count", "filter", "sum"):
+                            for y in walk(x):
+                                if y[0] == "agg" and y[1][0] == "closure":
+                                    cb = prog.bodies.get(y[1][1])
+                                    if cb is not None:
+                                        ce, _ = gate.enum_compare_edges(prog, cb, Chaser(cb), "slip::SlipType", "slip_type", {"ATR"})
+                                        if ce or _returns_atr_compare(prog, cb):
+                                            ok = True
+            if ok:
+                res.sample({"rule": R2, "field": "total_rebroadcast_slips", "site": g.loc(bb), "verdict": "counts ATR-typed outputs"})
+            else:
+                res.add(Finding(R2, "C13.derive|total_rebroadcast_slips|count-unit",
+                                "Block::generate %s: generate_consensus_values counts one per rebroadcast transaction (one ATR-typed output each), so the two "
+                                "totals differ as soon as a rebroadcast carries other outputs (an NFT group is [Bound, ATR, Bound])" % why, g.loc(bb)))
     # R3: the block whose outputs are rebroadcast is the longest-chain block at the expiring height: inside the consensus value
     # computation every lookup of a block by height goes through the longest-chain index, never through "any block at this id"
     from ..callgraph import CallGraph
